@@ -102,3 +102,11 @@ M("c10-read-before-acquire", "C10", ("pyramid.py", '''        with SoftFileLock(
 '''))
 M("c10-lock-keyed-by-format", "C10", ("pyramid.py", "        p = self.tile_path(pos)\n\n        with SoftFileLock", "        p = self.tile_path(pos, format=format and ('x' + format))\n\n        with SoftFileLock"))
 M("c10-write-outside-lock", "C10", ("pyramid.py", "            yield img\n            self.write_image(pos, img, format=format or self._default_format)", "            yield img\n        self.write_image(pos, img, format=format or self._default_format)"))
+
+# ---- C08
+M("c08-offset-ceil", "C08", ("study.py", "        self._img_gx0 = (self._p2n - self._width) // 2", "        self._img_gx0 = (self._p2n - self._width + 1) // 2"))
+M("c08-flip-slice-end", "C08", ("study.py", "                    if flip_tile_y0 == -1:\n                        flip_tile_y0 = None  # with a slice, -1 does the wrong thing\n\n                    by_idx = slice(flip_tile_y1, flip_tile_y0, -1)\n                else:\n                    by_idx = slice(tile_y, tile_y + height)\n\n                iy_idx = slice(image_y, image_y + height)\n                ix_idx = slice(image_x, image_x + width)\n                bx_idx = slice(tile_x, tile_x + width)\n\n                image.fill", "                    by_idx = slice(flip_tile_y1, flip_tile_y0, -1)\n                else:\n                    by_idx = slice(tile_y, tile_y + height)\n\n                iy_idx = slice(image_y, image_y + height)\n                ix_idx = slice(image_x, image_x + width)\n                bx_idx = slice(tile_x, tile_x + width)\n\n                image.fill"))
+M("c08-p2n-strict", "C08", ("pyramid.py", "    while p < n:\n        p *= 2", "    while p <= n:\n        p *= 2"))
+M("c08-subimage-offset", "C08", ("study.py", "        sub_tiling._img_gy0 += subim_iy", "        sub_tiling._img_gy0 += subim_ix"))
+M("c08-tile-end", "C08", ("study.py", "        tile_end_tx = (\n            img_gx1 // 256\n        )", "        tile_end_tx = (\n            (img_gx1 + 1) // 256\n        )"))
+M("c08-no-flip-fits", "C08", ("study.py", "        invert_into_tiles = pio.get_default_vertical_parity_sign() == 1", "        invert_into_tiles = False"))
